@@ -1097,7 +1097,7 @@ def _cff_clauses(d, g, quant):
     return out
 
 
-_OTF_MGBB_READY = False  # flipped when the engine narrows the None-branch of `if bounds is not None:` (notes/C04.requests.md #5)
+_OTF_MGBB_READY = True  # flipped when the engine narrows the None-branch of `if bounds is not None:` (notes/C04.requests.md #5)
 contract(
     "ufo2ft.outlineCompiler:OutlineOTFCompiler.makeGlyphsBoundingBoxes",
     props=["C04"] if _OTF_MGBB_READY else [],
